@@ -1,2 +1,104 @@
+// histsim: API histories on one solver object - modifications through both interfaces, solves (stoppable), basis calls, parameter calls.
+// engine "hist": floating-point histories (C06, C09, C15, C04, C05, C01, C02). engine "exact": rational solves with stops (C03, C07, C11).
 #include "gen.h"
-namespace sim { Plan gen_hist(uint64_t seed, const GenOpts& g) { return gen_stop(seed, g); } }
+#include "simcore.h"
+namespace sim {
+static std::string I(long v) { return std::to_string(v); }
+static Op mk(const std::string& obj, const std::string& name) { Op o; o.obj = obj; o.name = name; return o; }
+
+static Op mod_op(Rng& rng, bool ratOK) {
+  static const char* kinds[] = {"addrow", "addcol", "addrows", "addcols", "chgrow", "chgcol", "chglhs", "chgrhs", "chgrange", "chglhsvec", "chgrhsvec", "chgrangevec", "chglower", "chgupper", "chgbounds",
+                                "chglowervec", "chguppervec", "chgboundsvec", "chgobj", "chgobjvec", "chgelem", "chgelem", "rmrow", "rmcol", "rmrowsperm", "rmcolsperm", "rmrowsidx", "rmcolsidx", "rmrowrange", "rmcolrange",
+                                "sense", "offset", "sync", "chgobj", "chgbounds", "chgrhs", "chglhs"};
+  Op m = mk("A", "mod"); m.set("kind", kinds[rng.below(sizeof kinds / sizeof kinds[0])]); m.seti("s", (long)rng.below(1 << 30));
+  if (ratOK && rng.chance(0.45)) { m.set("iface", "rat"); m.seti("form", rng.range(0, 1)); }
+  if (rng.chance(0.01)) m.set("kind", "clearlp");
+  return m;
+}
+static Op stop_small(Rng& rng) {
+  Op o = mk("A", "optimize");
+  int k = rng.range(0, 9);
+  if (k < 4) { o.set("stop", "iter"); o.seti("k", rng.range(0, 6)); }
+  else if (k < 7) { o.set("stop", "clock"); o.seti("k", rng.range(0, 80)); o.set("limit", "1000"); }
+  else { o.set("stop", "intr_point"); o.seti("k", rng.range(0, 8)); }
+  return o;
+}
+
+Plan gen_hist(uint64_t seed, const GenOpts& g) {
+  Plan p; p.seed = seed; p.engine = "hist";
+  Rng rng(mix(seed, 0x4157));
+  const std::string& prop = g.prop;
+  bool thorough = g.tier == "thorough";
+  bool paramsOnly = prop == "C15" && rng.chance(0.35);
+  bool sync = rng.chance(prop == "C07" ? 1.0 : 0.4);
+  model::GenCfg gc; gc.klass = rng.pick({0, 0, 1, 1, 1, 2, 3}); gc.maxRows = rng.range(1, 7); gc.maxCols = rng.range(1, 7); gc.dyadicScale = rng.chance(prop == "C09" ? 0.7 : 0.2);
+  Rng lr = rng.fork(1); p.lps.push_back(model::generate(lr, gc));
+  p.cfg["clock"] = I(rng.pick({(int)CLK_MIXED, (int)CLK_SUBTICK}));
+  if (rng.chance(0.2) && !paramsOnly) { p.cfg["bugmask"] = I(rng.range(1, 7)); p.cfg["bugp"] = rng.pick({"0.3", "1.0"}); p.cfg["bugbudget"] = "2"; p.cfg["bugseed"] = I((long)rng.below(1 << 20)); }
+  p.ops.push_back(mk("A", "new"));
+  Op sw = swarm_params(rng, "A", false, true);
+  if (sync) sw.set("int:syncmode", "1");
+  if (prop == "C09") { sw.set("bool:persistentscaling", "1"); sw.set("int:scaler", I(rng.range(1, 6))); }
+  p.ops.push_back(sw);
+  Op ld = mk("A", "load"); ld.set("lp", "0"); ld.set("via", sync && rng.chance(0.5) ? "rational" : "real"); p.ops.push_back(ld);
+  int steps = thorough ? rng.range(8, 40) : rng.range(4, 18);
+  if (prop == "C09") steps += 10;
+  for (int k = 0; k < steps; k++) {
+    int c = rng.range(0, 99);
+    if (paramsOnly) {
+      Op pa = mk("A", "param"); pa.set("kind", rng.pick({"setvalid", "setvalid", "setbad", "setbad", "parsevalid", "parsebad", "reset", "setsettings"})); pa.seti("s", (long)rng.below(1 << 30)); pa.seti("any", 1); p.ops.push_back(pa);
+      if (rng.chance(0.15)) p.ops.push_back(mod_op(rng, false));
+      continue;
+    }
+    if (c < 45) p.ops.push_back(mod_op(rng, sync));
+    else if (c < 68) {
+      if (rng.chance(0.25)) { p.ops.push_back(stop_small(rng)); if (rng.chance(0.5)) { p.ops.push_back(mk("A", "lift")); p.ops.push_back(mk("A", "optimize")); } else p.ops.push_back(mk("A", "lift")); }
+      else p.ops.push_back(mk("A", "optimize"));
+    }
+    else if (c < 74) { Op q = mk("A", "query"); q.set("what", rng.pick({"accessors", "basis", "params", "solution", "sync"})); p.ops.push_back(q); }
+    else if (c < 78) p.ops.push_back(mk("A", "clearbasis"));
+    else if (c < 83) { Op sb = mk("A", "setbasis"); sb.seti("bseed", (long)rng.below(1 << 30)); p.ops.push_back(sb); }
+    else if (c < 95) { Op pa = mk("A", "param"); pa.set("kind", rng.pick({"setvalid", "setvalid", "setbad", "parsevalid", "parsebad", "setsettings"})); pa.seti("s", (long)rng.below(1 << 30)); if (prop != "C15" && rng.chance(0.5)) continue; p.ops.push_back(pa); }
+    else { Op s2 = mk("A", "set"); s2.set(rng.pick({"int:simplifier", "int:representation", "int:algorithm", "int:pricer"}), I(rng.range(0, 1))); if (s2.kv[0].first == "int:simplifier") s2.kv[0].second = rng.chance(0.5) ? "0" : "3"; p.ops.push_back(s2); }
+  }
+  p.ops.push_back(mk("A", "lift"));
+  if (!paramsOnly) p.ops.push_back(mk("A", "optimize"));
+  return p;
+}
+
+// exact engine: rational solves, stops inside them, rational basis inverse, sync after every return
+Plan gen_exact(uint64_t seed, const GenOpts& g) {
+  Plan p; p.seed = seed; p.engine = "exact";
+  Rng rng(mix(seed, 0xE7AC));
+  const std::string& prop = g.prop;
+  model::GenCfg gc; gc.klass = rng.pick({0, 0, 1, 1, 1, 2, 3}); gc.maxRows = rng.range(1, 6); gc.maxCols = rng.range(1, 6); gc.fractions = rng.chance(0.8); gc.bigRatios = false;
+  Rng lr = rng.fork(1); p.lps.push_back(model::generate(lr, gc));
+  p.cfg["clock"] = I(rng.pick({(int)CLK_MIXED, (int)CLK_SUBTICK, (int)CLK_TICK}));
+  if (rng.chance(0.25)) { p.cfg["bugmask"] = I(rng.pick({2, 2, 3, 6, 7})); p.cfg["bugp"] = rng.pick({"0.3", "1.0"}); p.cfg["bugbudget"] = I(rng.range(1, 3)); p.cfg["bugseed"] = I((long)rng.below(1 << 20)); }
+  p.ops.push_back(mk("A", "new"));
+  Op sw = swarm_params(rng, "A", true, false);
+  p.ops.push_back(sw);
+  Op ld = mk("A", "load"); ld.set("lp", "0"); ld.set("via", "rational"); p.ops.push_back(ld);
+  int rounds = rng.range(1, 3);
+  for (int r = 0; r < rounds; r++) {
+    if (rng.chance(prop == "C03" ? 0.3 : 0.6)) {
+      Op o = mk("A", "optimize"); int k = rng.range(0, 9);
+      if (k < 3) { o.set("stop", "iter"); o.seti("k", rng.range(0, 8)); }
+      else if (k < 7) { o.set("stop", "clock"); o.seti("k", rng.chance(0.5) ? (long)rng.range(0, 40) : (long)rng.range(0, 600)); o.set("limit", "1000"); }
+      else if (k < 9) { o.set("stop", rng.chance(0.5) ? "reflimit" : "stallref"); o.seti("k", rng.range(0, 3)); }
+      else { o.set("stop", "intr_point"); o.seti("k", rng.range(0, 6)); }
+      p.ops.push_back(o);
+      { Op q = mk("A", "query"); q.set("what", "sync"); p.ops.push_back(q); }
+      { Op q = mk("A", "query"); q.set("what", "accessors"); p.ops.push_back(q); }
+      { Op q = mk("A", "query"); q.set("what", "params"); p.ops.push_back(q); }
+      p.ops.push_back(mk("A", "lift"));
+      if (rng.chance(0.3)) { Op s2 = mk("A", "set"); s2.set("int:solvemode", "0"); s2.set("real:feastol", "1e-6"); s2.set("real:opttol", "1e-6"); p.ops.push_back(s2); p.ops.push_back(mk("A", "optimize")); Op s3 = mk("A", "set"); s3.set("int:solvemode", "2"); s3.set("real:feastol", "0"); s3.set("real:opttol", "0"); p.ops.push_back(s3); }
+    }
+    p.ops.push_back(mk("A", "optimize"));
+    { Op q = mk("A", "query"); q.set("what", "ratinverse"); p.ops.push_back(q); }
+    if (rng.chance(0.5)) { p.ops.push_back(mod_op(rng, true)); if (rng.chance(0.5)) { Op q = mk("A", "query"); q.set("what", "ratinverse"); p.ops.push_back(q); } }
+    if (rng.chance(0.3)) { Op sb = mk("A", "setbasis"); sb.seti("bseed", (long)rng.below(1 << 30)); p.ops.push_back(sb); Op q = mk("A", "query"); q.set("what", "ratinverse"); p.ops.push_back(q); }
+  }
+  return p;
+}
+}  // namespace sim
